@@ -56,8 +56,9 @@ def run_pair(cls, pre, post, dsteps, maxsteps, dt, lr_post, lr_pre, tc_post, tc_
     if per_cell:
         # the documented cell-by-cell override: the trainer is built with DECOY hyper-parameters (opposite signs, other time
         # constants), the real ones are given when the cell is registered
-        tr = cls(-lr_post, -lr_pre, tc_post + 3.0, tc_pre + 2.0, delayed=delayed, interp_tolerance=1e-4, trace_mode=mode, batch_reduction=torch.sum)
-        tr.register_cell("cell", layer.cell, lr_post=lr_post, lr_pre=lr_pre, tc_post=tc_post, tc_pre=tc_pre)
+        tr = cls(-lr_post, -lr_pre, tc_post + 3.0, tc_pre + 2.0, delayed=delayed, interp_tolerance=1e-4, trace_mode=mode, batch_reduction=torch.amax)
+        # ... including the batch reduction: the trainer-level one (amax) is a decoy too, the cell's own is the sum
+        tr.register_cell("cell", layer.cell, lr_post=lr_post, lr_pre=lr_pre, tc_post=tc_post, tc_pre=tc_pre, batch_reduction=torch.sum)
     else:
         tr = cls(lr_post, lr_pre, tc_post, tc_pre, delayed=delayed, interp_tolerance=1e-4, trace_mode=mode, batch_reduction=torch.sum)
         tr.register_cell("cell", layer.cell)
@@ -122,8 +123,8 @@ def per_cell_equivalence(cls, names, values, pre, post, step, extra=None, maxdel
             conn, neuron, layer = build(I, O, B, 1.0, torch.zeros(O, I, dtype=torch.long), 0)
         if per_cell:
             decoy = [(-v if n.startswith("lr") else v + 2.5) for n, v in zip(names, values)]
-            tr = cls(*decoy, batch_reduction=torch.sum, **(extra or {}))
-            tr.register_cell("cell", layer.cell, **dict(zip(names, values)))
+            tr = cls(*decoy, batch_reduction=torch.amax, **(extra or {}))
+            tr.register_cell("cell", layer.cell, batch_reduction=torch.sum, **dict(zip(names, values)))
         else:
             tr = cls(*values, batch_reduction=torch.sum, **(extra or {}))
             tr.register_cell("cell", layer.cell)
